@@ -17,6 +17,15 @@ Values
                              state version, calls of mutators are recorded as effects
   FuncVal / ClassVal / ExtRef / Partial / Closure
 
+  OpenInfo                   side table for native list / dict / set objects that a skipped loop may have changed: known items plus an
+                             unknown rest; membership is an atom `member@epoch.version(name, x)`, iteration yields the known items, every
+                             value known to be a member on this path, and one repeated segment for the rest
+  CtxGen / DDict             contextlib.contextmanager generators (entered by `with`), collections.defaultdict
+
+Loops whose continuation the oracle (not the data) decided twice in a row (`while` with symbolic tests / breaks) and functions that
+re-entered themselves three times on symbolic arguments are loops / recursions of unknown length: skipped with their effects forgotten
+(havoc values are uninterpreted functions `after(var, site, state)` of the state they start from) or explored for one arbitrary iteration.
+
 Path enumeration is by re-execution: a run follows a vector of decisions; when it needs a new decision it takes True and the sibling is
 scheduled.  Loops over iterables of unknown length ("havoc loops") do not multiply paths: a run either skips the loop (variables
 assigned in it become unknown, abstract objects get a new state version) or executes the body once and stops there.
@@ -192,6 +201,11 @@ class ExtObj:
     type: str
     name: str
     version: int = 0
+    # concrete mode (Explorer(concrete_graph=True)): a directed graph over native values with networkx' semantics, insertion ordered
+    concrete: bool = False
+    cnodes: dict = field(default_factory=dict)  # node -> attribute dict
+    cadj: dict = field(default_factory=dict)  # node -> {successor -> attribute dict}
+    frozen: bool = False
 
 
 @dataclass(eq=False)
@@ -415,6 +429,7 @@ class Explorer:
 
     def __init__(self, repo: Repo, opaque: set[str] | None = None, stop: set[str] | None = None, max_runs: int = 4000, max_steps: int = 200000, split_calls: bool = False) -> None:
         self.repo = repo
+        self.concrete_graph = False  # library graph objects are modelled concretely (all inputs of the entry are constants)
         self.split_calls = split_calls  # explore statement-level calls that only touch abstract objects separately (paths add up instead of multiplying)
         self.effect_only: dict[str, bool] = {}
         self.opaque = opaque or set()
@@ -587,6 +602,10 @@ class InterpBase:
                     if m is not None:
                         return self.truth(self.call_function(m, [v], {}))
             return True
+        if isinstance(v, ExtObj) and v.concrete:
+            return bool(v.cnodes)
+        if isinstance(v, ExtView) and v.obj.concrete:
+            return bool(self.view_native(v))
         if isinstance(v, ExtObj):
             return self.decide(App(f"nonempty@{v.version}", (v.name,)))
         if isinstance(v, ExtView):
@@ -684,6 +703,10 @@ class InterpBase:
             if isinstance(x, str):
                 return x in container
             return self.decide(App("in", (x, container)))
+        if isinstance(container, ExtObj) and container.concrete:
+            return self.contains(container.cnodes, x)
+        if isinstance(container, ExtView) and container.obj.concrete:
+            return self.contains(self.view_native(container), x)
         if isinstance(container, ExtObj):
             return self.decide(App(f"hasnode@{container.version}", (container.name, _h(x))))
         if isinstance(container, ExtView):
